@@ -37,6 +37,12 @@ def compress(codec, chunks, ctx):
     return r.items
 
 
+def reference_compress(codec, data):
+    if codec == 'gzip':
+        return gzip.compress(data)
+    return zstandard.ZstdCompressor().compress(data)
+
+
 def reference_decompress(codec, data):
     if codec == 'gzip':
         return gzip.decompress(data)
